@@ -35,13 +35,17 @@ const ms = int64(time.Millisecond)
 func c13Scenario(kind string) *mc.Scenario {
 	return &mc.Scenario{
 		Name:   "C13/grid/" + kind,
-		Params: "arrival in {0,5} ms, bound D in {10,20} ms, context bound (explicit cancel or context deadline) in {none,pre,5,D-1,D,D+1}, release in {none,D-1,D,D+1}; limit 1 held",
+		Params: "arrival in {0,5} ms (deadline limiter: also D and D+1), bound D in {10,20} ms, context bound (explicit cancel or context deadline) in {none,pre,5,D-1,D,D+1}, release in {none,D-1,D,D+1}; limit 1 held",
 		Cfg:    vrt.Config{MaxSteps: 4000, Horizon: 200 * ms},
 		Body: func(x *mc.Exec) {
 			e := &c13Expect{kind: kind}
 			x.Aux = e
-			e.ta = []int64{0, 5}[vrt.Choose(2)]
 			e.d = []int64{10, 20}[vrt.Choose(2)]
+			taMenu := []int64{0, 5}
+			if kind == "deadline" {
+				taMenu = []int64{0, 5, e.d, e.d + 1} // arrivals at and after the limiter's deadline
+			}
+			e.ta = taMenu[vrt.Choose(len(taMenu))]
 			tcMenu := []int64{-1, 0, 5, e.d - 1, e.d, e.d + 1}
 			trMenu := []int64{-1, e.d - 1, e.d, e.d + 1}
 			e.tc = tcMenu[vrt.Choose(len(tcMenu))]
